@@ -828,3 +828,188 @@ Proof.
   intros H. apply in_app_or in H. apply in_or_app. destruct H as [H|H]; [left|right; apply IH; exact H].
   unfold filt in H. destruct (period_contains sp (d_date d)); [exact H|destruct H].
 Qed.
+
+(* -- indicators of model and specification agree -- *)
+Lemma q_ind_balance cfg part row c0 col0 d a c :
+  q_ind (balance_query cfg part) row (Some col0, Some c0) d a c ==
+  match column_for (periods part) d with Some e => s_ind cfg row c0 col0 e a c | None => 0 end.
+Proof.
+  unfold q_ind, s_ind, balance_query. cbn [q_where q_account q_date].
+  assert (Hw : (match bc_accounts cfg with [] => true | rs => rxs_match rs (acc_name a) end
+                && match bc_commodities cfg with [] => true | rs => rxs_match rs c end) = cfg_where cfg a c) by reflexivity.
+  rewrite Hw. destruct (cfg_where cfg a c); [|destruct (column_for (periods part) d); reflexivity].
+  destruct (shorten (bc_mapping cfg) (remap (bc_remap cfg) a)) as [a'| |]; try (destruct (column_for (periods part) d); reflexivity).
+  unfold Date.align. rewrite align_list_column_for, (acc_eqb_sym a' row).
+  destruct (column_for (periods part) d) as [e|]; unfold rkey_eqb; cbn [fst snd oz_eqb ocom_eqb andb].
+  - destruct (acc_eqb row a'); [|rewrite andb_false_r; reflexivity].
+    destruct (e =? col0)%Z; cbn [andb]; [|reflexivity]. destruct (str_eqb c c0); reflexivity.
+  - destruct (acc_eqb row a'); reflexivity.
+Qed.
+
+Lemma find_map {A B} (f : B -> bool) (g : A -> B) l : find f (map g l) = option_map g (find (fun x => f (g x)) l).
+Proof. induction l as [|x l IH]; cbn [map find option_map]; [reflexivity|]. destruct (f (g x)); [reflexivity|exact IH]. Qed.
+
+Lemma RS_after cfg row c0 col0 hi : forall ps prev dp,
+  Forall (fun p => (p_start p - 1 <= hi)%Z) ps -> (hi < fst dp)%Z -> RS cfg row c0 col0 prev ps dp == 0.
+Proof.
+  induction ps as [|p ps IH]; intros prev dp Hall Hlt; cbn [RS]; [reflexivity|].
+  inversion Hall as [|? ? Hp Hrest]; subst. rewrite (IH _ _ Hrest Hlt).
+  replace (fst dp <=? p_start p - 1)%Z with false by lia. rewrite andb_false_r. cbn [andb]. ring.
+Qed.
+
+Lemma CE_nokeys cfg row c0 col0 posts : forall ps prev, CE cfg row c0 col0 posts [] prev ps == 0.
+Proof. induction ps as [|p ps IH]; intros prev; cbn [CE]; [reflexivity|]. rewrite IH. unfold qsum. cbn [fold_right]. ring. Qed.
+
+Lemma closable_keys_empty sp posts : (forall d, in_span sp d = false) -> closable_keys sp posts = [].
+Proof.
+  intros H. rewrite closable_keys_fold.
+  assert (Hg : forall l, fold_left (key_step sp) posts l = l).
+  { induction posts as [|dp posts IH]; intros l; cbn [fold_left]; [reflexivity|].
+    unfold key_step at 2. unfold span_dp. rewrite H. cbn [andb]. apply IH. }
+  apply Hg.
+Qed.
+
+Lemma chain_le_sorted : forall ps prev,
+  StronglySorted Z.lt (map p_start ps) -> Forall (fun p => (prev <= p_start p)%Z) ps -> chain_le prev ps.
+Proof.
+  induction ps as [|p ps IH]; intros prev Hs Hall; cbn [chain_le]; [exact I|].
+  inversion Hall as [|? ? Hp _]; subst. split; [exact Hp|].
+  cbn [map] in Hs. inversion Hs as [|? ? Hs' Hlt]; subst. apply IH; [exact Hs'|].
+  rewrite Forall_forall in *. intros x Hx. assert (Hin : In (p_start x) (map p_start ps)) by (apply in_map; exact Hx).
+  specialize (Hlt _ Hin). lia.
+Qed.
+
+Lemma sorted_lower (l : list Z) : StronglySorted Z.lt l -> exists lo, forall x, In x l -> (lo < x)%Z.
+Proof.
+  intros H. destruct l as [|z l]; [exists 0%Z; intros x []|].
+  exists (z - 1)%Z. inversion H as [|? ? _ Hall]; subst. rewrite Forall_forall in Hall.
+  intros x [<-|Hx]; [lia|]. specialize (Hall _ Hx). lia.
+Qed.
+
+Lemma spec_close_total cfg sp ps posts row c col :
+  dvalue (period_amount (mapped_entries cfg (user_entries sp ps posts ++
+            closing_entries posts (closable_keys sp posts) (p_start sp) ps)) (acc_eqb row) c col)
+  == qsum (s_contrib cfg sp ps row c col) posts + CE cfg row c col posts (closable_keys sp posts) (p_start sp) ps.
+Proof.
+  rewrite period_amount_entries, qsum_app, closing_entries_CE.
+  rewrite <- period_amount_entries, period_amount_user. reflexivity.
+Qed.
+
+Lemma model_close_total cfg part dl row c col s5 d5 :
+  bc_valuation cfg = None -> part_facts part -> postings_syntactic dl ->
+  process_days (close_proc (start_dates part)) (mkClose [] [])
+    (map (filt (span part)) (b_days (builder_touch (builder_of dl) (start_dates part)))) = ROk (s5, d5) ->
+  q_total (balance_query cfg part) row (Some col, Some c) (days_postings d5) ==
+    qsum (fun dp => if in_span (span part) (fst dp) then q_contrib (balance_query cfg part) row (Some col, Some c) dp else 0) (flat_postings dl)
+  + qsum (fun dp => if in_span (span part) (fst dp) then NX (balance_query cfg part) row (Some col, Some c) (start_dates part) dp else 0) (flat_postings dl).
+Proof.
+  intros Hv [Hss _] Hsyn H.
+  set (q := balance_query cfg part) in *. set (k := (Some col, Some c)) in *.
+  set (days0 := b_days (builder_touch (builder_of dl) (start_dates part))) in *.
+  assert (Hunval : q_valued q = false) by (unfold q, balance_query; cbn [q_valued]; rewrite Hv; reflexivity).
+  assert (Hperm : Permutation (days_postings days0) (flat_postings dl)).
+  { unfold days0. rewrite builder_touch_perm. apply builder_of_perm. }
+  assert (Hdated0 : days_dated days0) by (apply builder_touch_dated; apply builder_of_dated).
+  assert (Hsorted0 : StronglySorted Z.lt (dates days0)).
+  { apply Sorted_StronglySorted; [intros x y z; apply Z.lt_trans|].
+    unfold days0, builder_touch. cbn [b_days]. apply touch_sorted. apply builder_of_sorted. }
+  assert (Hcov0 : forall s, In s (start_dates part) -> In s (dates days0)).
+  { unfold days0, builder_touch. cbn [b_days]. apply (proj1 (touch_dates _ _)). }
+  assert (Hok0 : posts_ok (days_postings days0)).
+  { intros [d p] Hin. cbn [snd]. apply (Hsyn d p). eapply Permutation_in; [exact Hperm|exact Hin]. }
+  set (days1 := map (filt (span part)) days0) in *.
+  assert (Hok1 : posts_ok (days_postings days1)) by (intros dp Hin; apply Hok0; eapply filt_in; exact Hin).
+  rewrite (close_days q row k Hunval (start_dates part) days1 (mkClose [] []) s5 d5 map_ok_nil Hok1 H).
+  cbn [c_qty].
+  assert (Hm0 : (match firstclose (start_dates part) days1 with Some cd => msum (G q row k cd) [] | None => 0 end) == 0)
+    by (destruct (firstclose (start_dates part) days1); reflexivity).
+  rewrite Hm0, Qplus_0_r.
+  assert (Hsorted1 : StronglySorted Z.lt (dates days1)) by (unfold days1; rewrite filt_dates; exact Hsorted0).
+  destruct (sorted_lower _ Hsorted1) as (lo & Hlo).
+  rewrite (DD_nxt q row k (start_dates part) Hss days1 lo Hsorted1 Hlo).
+  2: { intros s Hs _. unfold days1. rewrite filt_dates. apply Hcov0. exact Hs. }
+  2: { apply filt_dated. exact Hdated0. }
+  rewrite q_total_qsum. unfold days1. rewrite !(filt_sum _ _ _ Hdated0).
+  rewrite !(qsum_perm _ _ _ Hperm). reflexivity.
+Qed.
+
+(* the cells of the report, with and without --close *)
+Theorem report_cells cfg ds r part :
+  bc_valuation cfg = None ->
+  balance_report cfg ds = COk (r, part) ->
+  exists dl,
+    parse_directives ds = MOk dl /\
+    new_partition (clip (mkPeriod (bc_from cfg) (bc_to cfg)) (journal_period dl)) (bc_interval cfg) (bc_last cfg) = POk part /\
+    (postings_syntactic dl ->
+     forall row c col,
+       rcell row (Some col, Some c) r ==
+       dvalue (period_amount (mapped_entries cfg (user_entries (span part) (periods part) (flat_postings dl) ++
+                 (if bc_close cfg
+                  then closing_entries (flat_postings dl) (closable_keys (span part) (flat_postings dl)) (p_start (span part)) (periods part)
+                  else [])))
+               (acc_eqb row) c col)).
+Proof.
+  intros Hv H. destruct (bc_close cfg) eqn:Hc.
+  2: { destruct (report_cells_noclose cfg ds r part Hv Hc H) as (dl & A & B & C). exists dl.
+       split; [exact A|split; [exact B|]]. intros _ row c col. rewrite app_nil_r. apply C. }
+  unfold balance_report in H. rewrite Hv, Hc in H. cbn [cbind] in H.
+  unfold load in H. destruct (parse_directives ds) as [dl| |] eqn:Ep; try discriminate. cbn [cbind of_mresult] in H.
+  exists dl. split; [reflexivity|].
+  unfold cfg_partition in H. rewrite builder_period_spec in H.
+  destruct (new_partition (clip (mkPeriod (bc_from cfg) (bc_to cfg)) (journal_period dl)) (bc_interval cfg) (bc_last cfg)) as [part0| |] eqn:Epart; try discriminate.
+  cbn [cbind] in H. unfold run_stage in H.
+  destruct (process_days (check_proc_current (bc_lenient cfg)) check_init (b_days (builder_touch (builder_of dl) (start_dates part0)))) as [[s1 d1]| |] eqn:E1; try discriminate.
+  cbn [cbind of_presult fst snd] in H.
+  pose proof (check_current_stage_id _ _ _ _ _ E1) as ->.
+  destruct (process_days (filter_proc (span part0)) tt (b_days (builder_touch (builder_of dl) (start_dates part0)))) as [[s4 d4]| |] eqn:E4; try discriminate.
+  cbn [cbind of_presult fst snd] in H.
+  pose proof (filter_stage_spec _ _ _ _ _ E4) as ->.
+  destruct (process_days (close_proc (start_dates part0)) (mkClose [] []) _) as [[s5 d5]| |] eqn:E5; try discriminate.
+  cbn [cbind of_presult fst snd] in H.
+  destruct (process_days (query_proc (balance_query cfg part0) report_insert) new_report d5) as [[r6 d6]| |] eqn:E6; try discriminate.
+  cbn [cbind of_presult fst snd] in H. inversion H; subst r6 part0. clear H.
+  split; [reflexivity|]. intros Hsyn row c col.
+  destruct (query_days (balance_query cfg part) row (Some col, Some c) _ _ _ _ wf_new_report E6) as (_ & _ & Hcell).
+  rewrite Hcell, rcell_new, Qplus_0_l.
+  change (map (fun d => if period_contains (span part) (d_date d) then d else set_txns d []) (b_days (builder_touch (builder_of dl) (start_dates part))))
+    with (map (filt (span part)) (b_days (builder_touch (builder_of dl) (start_dates part)))) in E5.
+  pose proof (partition_facts _ _ _ _ Epart) as Hpf.
+  rewrite (model_close_total cfg part dl row c col s5 d5 Hv Hpf Hsyn E5).
+  rewrite spec_close_total.
+  assert (Hok : posts_ok (flat_postings dl)) by (intros [d p] Hin; apply (Hsyn d p Hin)).
+  apply Qplus_comp.
+  - apply qsum_ext. intros [d p] _. cbn [fst]. unfold s_contrib.
+    destruct (in_span (span part) d); [|reflexivity].
+    rewrite (q_contrib_balance cfg part row c col d p Hv).
+    destruct (cfg_where cfg (p_acc p) (p_com p)).
+    + destruct (column_for (periods part) d); destruct (shorten (bc_mapping cfg) (remap (bc_remap cfg) (p_acc p))); reflexivity.
+    + destruct (column_for (periods part) d); reflexivity.
+  - destruct Hpf as [Hss Htiles].
+    destruct (Z_le_gt_dec (p_start (span part)) (p_end (span part))) as [Hle|Hgt].
+    + destruct (Htiles Hle) as [Ht Hfs]. destruct (tiles_facts _ _ _ Ht) as [Hst Hb].
+      assert (Hchain : chain_le (p_start (span part)) (periods part)).
+      { apply chain_le_sorted; [exact Hst|]. eapply Forall_impl; [|exact Hb]. cbn. intros x Hx. lia. }
+      rewrite (CE_RS cfg row c col (span part) (flat_postings dl) Hok (periods part) (p_start (span part))).
+      2: lia.
+      2: { eapply Forall_impl; [|exact Hb]. cbn. intros x Hx. lia. }
+      apply qsum_ext. intros [d p] Hin. cbn [fst].
+      destruct (in_span (span part) d) eqn:Esp.
+      * unfold in_span in Esp. rewrite (RS_find cfg row c col _ _ _ Hchain) by (cbn [fst]; lia).
+        unfold NX. cbn [fst snd]. unfold nxt, start_dates. rewrite find_map.
+        destruct (find (fun x => (d <? p_start x)%Z) (periods part)) as [p0|] eqn:Ef; cbn [option_map].
+        -- destruct (closable_dp (d, p)); [|reflexivity]. apply find_some in Ef. destruct Ef as [Hin0 _].
+           apply Qmult_comp; [|reflexivity]. unfold G, GS. rewrite !q_ind_balance.
+           rewrite <- align_list_column_for.
+           assert (Hp0 : (p_start p0 <= p_start p0 <= p_end p0)%Z).
+           { rewrite Forall_forall in Hb. specialize (Hb _ Hin0). lia. }
+           rewrite (align_in_period _ _ _ p0 (p_start p0) Ht Hin0 Hp0). reflexivity.
+        -- destruct (closable_dp (d, p)); reflexivity.
+      * symmetry. unfold in_span in Esp.
+        destruct (Z_lt_ge_dec d (p_start (span part))) as [Hlt|Hge].
+        -- apply RS_before; [exact Hchain|cbn [fst]; exact Hlt].
+        -- apply (RS_after cfg row c col (p_end (span part))); [|cbn [fst]; lia].
+           eapply Forall_impl; [|exact Hb]. cbn. intros x Hx. lia.
+    + assert (Hempty : forall d, in_span (span part) d = false) by (intros d; unfold in_span; lia).
+      rewrite (closable_keys_empty _ _ Hempty), CE_nokeys.
+      apply qsum_zero. intros dp _. rewrite Hempty. reflexivity.
+Qed.
